@@ -9,8 +9,11 @@ from props import common
 
 ID = "C09"
 LEVEL = "proof"
+LEVEL_TEXT = 'Lean 4 theorem eqv_iff_content: with zero tolerances == holds iff the content normal forms are identical, with reflexivity, symmetry, transitivity, monotonicity in the tolerances, equality with copy(), and single-difference corollaries; correspondence on generated single-difference pairs (numeric field incl. finite vs inf, key, extra trailing bin, nested child type) in both orders at tolerance 0 and 1e-12.'
+LEVEL_NOTE = "liveOk (sparse container has a template iff its quantity is live) is an executable hypothesis checked on reached states; pickle clones are covered by C11's differential check only."
+TECHNIQUE = 'Lean 4 proof over the model of __eq__ + correspondence on single-difference pairs'
 LEAN_MODULE = "Hg.Props.C09"
-THEOREMS = []
+THEOREMS = ["Hg.C09.eqv_iff_content", "Hg.C09.eqv_refl", "Hg.C09.eqv_symm", "Hg.C09.eqv_trans", "Hg.C09.eqv_mono_tol", "Hg.C09.eqv_copy", "Hg.C09.eqv_false_of_entries", "Hg.C09.eqv_false_of_kids_length", "Hg.C09.eqv_child"]
 CASES = {"quick": 600, "thorough": 20000}
 RULE = ("pairs of trees/states: identical fills (possibly permuted), one extra fill, one changed cell (incl. finite -> +-inf/NaN), or "
         "one structural perturbation (parameter, bin key, extra trailing bin/threshold, nested child type); == must hold exactly "
